@@ -212,6 +212,14 @@ class Fn:
                     ct = ('s', 32)
                 self.env[nm] = ct
                 self.params.append((nm, coq_ty(ct)))
+        # C04: "failing_locals": {fn: [local]} (a local object whose CONSTRUCTOR may throw, e.g. BucketMemory allocating from a pool) and
+        # "failing_calls": {fn: [callee]} (a skipped call that may throw, e.g. RelocateCreate): each becomes a bool parameter <name>_fails
+        # and the statement `if <name>_fails then RETURN[false] else ...` (same "completed flag" convention as functor mode "fails")
+        self.fail_locals = list(cfg.get('failing_locals', {}).get(self.name, []))
+        self.fail_calls = list(cfg.get('failing_calls', {}).get(self.name, []))
+        for fn_ in self.fail_locals + self.fail_calls:
+            self.params.append((fn_ + '_fails', 'bool')); self.env[fn_ + '_fails'] = ('bool',)
+        self._failed_locals = set()
         self.extra_params = []   # opaque locals lifted to parameters
         self.loops = []
         self.nonsimple = False   # needs outcome
@@ -264,6 +272,8 @@ class Fn:
 
     def e(self, n):
         k = n['kind']
+        if k == 'GallinaVar':   # C09 (hoist_calls): the already bound result of a hoisted non-simple call
+            return n['text']
         ov_ = self.obj_value(n) if self.ctx.cfg.get('object_fields') else None
         if ov_ is not None:
             return ov_
@@ -575,9 +585,18 @@ class Fn:
             raise TranslationError('call to %s which has out-parameters (not supported at call sites)' % fi.name)
         pnodes = [p for p in fi.d.get('inner', []) if p['kind'] == 'ParmVarDecl']
         for p, a in zip(pnodes, args):
+            if p.get('name') is not None and fi.functors.get(p.get('name')) == 'fails':   # C04: a forwarded functor that may throw:
+                cn = p['name'] + '_fails'                                                  # the caller's own <name>_fails flag is passed on
+                if cn not in self.env: raise TranslationError('call to %s: caller has no %s' % (fi.name, cn))
+                out.append(cn); continue
             if p.get('name') is None or p.get('name') in fi.skipp or p.get('name') in fi.functors:
                 continue
             out.append(self.e(a))
+        for fn_ in getattr(fi, 'fail_locals', []) + getattr(fi, 'fail_calls', []):   # C04: the callee's failure flags are the caller's too
+            cn = fi.out + '_' + fn_ + '_fails'
+            if (cn, 'bool') not in self.extra_params:
+                self.extra_params.append((cn, 'bool')); self.env[cn] = ('bool',)
+            out.append(cn)
         # C12: opaque locals / address parameters of the callee are parameters of the caller too (named <callee>_<name>)
         for (pn, ty) in getattr(fi, 'extra_params', []):
             cn = fi.out + '_' + pn
@@ -984,6 +1003,13 @@ class Fn:
                     acc.add(self.lhs_name(n['inner'][-1]))
             except TranslationError:
                 pass
+        if k in ('CallExpr', 'CXXMemberCallExpr') and self.ctx.cfg.get('log_calls'):   # C16: ghost log fields are written by the logged call
+            try:
+                lnm, _ = self.callee_name(n)
+                if lnm in self.ctx.cfg['log_calls']:
+                    acc.update([self.ctx.cfg['log_calls'][lnm]['arr'], self.ctx.cfg['log_calls'][lnm]['n']])
+            except TranslationError:
+                pass
         if k == 'CallExpr' and self.ctx.cfg.get('out_calls'):   # C16
             try:
                 onm, _ = self.callee_name(n)
@@ -1076,6 +1102,32 @@ class Fn:
         self.note_write(nm)
         return f'let {nm} := {val} in\n{k()}'
 
+    def move_source(self, n):
+        """C14 (member_move_ctors): `param.field` inside CXXConstructExpr(std::move(param.field)) -> "param_field" """
+        n = skip_wrappers(n)
+        while True:
+            k = n.get('kind')
+            if k in ('ImplicitCastExpr', 'CXXStaticCastExpr', 'ParenExpr', 'MaterializeTemporaryExpr', 'ExprWithCleanups',
+                     'CXXBindTemporaryExpr', 'CXXFunctionalCastExpr') and n.get('inner'):
+                n = skip_wrappers(n['inner'][-1]); continue
+            if k == 'CXXConstructExpr' and len(n.get('inner', [])) == 1:
+                n = skip_wrappers(n['inner'][0]); continue
+            if k == 'CallExpr' and len(n.get('inner', [])) == 2:
+                try:
+                    nm, _ = self.callee_name(n)
+                except TranslationError:
+                    return None
+                if nm == 'move':
+                    n = skip_wrappers(n['inner'][1]); continue
+                return None
+            break
+        if n.get('kind') == 'MemberExpr':
+            try:
+                return self.member(n)
+            except TranslationError:
+                return None
+        return None
+
     def swap_lvalue(self, n):
         """C14 (swap_calls): name of the scalar lvalue an argument of swap denotes"""
         n = skip_wrappers(n)
@@ -1141,6 +1193,12 @@ class Fn:
             return self.decl(s, rest)
         if kind == 'ReturnStmt':
             if self.name in self.ctx.cfg.get('ignore_return', []):   # C12: returned iterator/pointer is not modelled
+                if getattr(self, 'fails_mode', False) and s.get('inner'):   # C04: `return callee(..)` where callee is itself in "fails" mode:
+                    v_ = skip_wrappers(s['inner'][0])                       # the call is kept and the callee's completed flag is passed on
+                    if v_.get('kind') in ('CXXMemberCallExpr', 'CallExpr') and self.is_nonsimple_call(v_):
+                        n_, c_ = self.callee_name(v_); f_ = self.lookup_fn(n_, c_)
+                        if getattr(f_, 'fails_mode', False):
+                            return self.ret_stmt(s['inner'][0], jc)
                 return jc['ret']('true' if getattr(self, 'fails_mode', False) else 'tt')   # C04: completed flag
             if s.get('inner'):
                 if self.ret_ct[0] == 'void':   # C20: `return f(x);` in a void function is `f(x); return;`
@@ -1216,6 +1274,9 @@ class Fn:
             if i == len(vs):
                 return rest()
             v = vs[i]; nm = v['name']
+            if nm in getattr(self, 'fail_locals', ()) and nm not in self._failed_locals:   # C04: the constructor of this local may throw
+                self._failed_locals.add(nm)
+                return f'if {nm}_fails then RETURN[false] else (\n{go(i)})'
             if nm in self.ctx.cfg.get('skip_locals', {}).get(self.name, []):   # C16: e.g. `MemManager& memManager = GetMemManager();` (a later use is an error)
                 return go(i + 1)
             if nm in self.ctx.cfg.get('pointer_locals', {}).get(self.name, {}):   # C02: `Node** children = pvGetChildren();` = a view of a configured (virtual) array field, usable only in array_copy ranges
@@ -1353,9 +1414,51 @@ class Fn:
             return jc['ret'](f'({a}, {b})')
         return jc['ret'](self.e(v))
 
+    def hoist_one(self, s0):
+        """C09 ("hoist_calls": true): `x = prim(F(a))` / `prim(v, F(a));` where F is a NON-SIMPLE translated function (it can be
+        Stuck) used as an ARGUMENT: F's call is bound first (match F .. with Ok h => ..), the statement is then translated with the
+        bound name in its place.  Only ONE such nested call per statement is accepted (no evaluation-order question arises).
+        Returns (call node, statement copy with the call replaced by a GallinaVar, fresh name) or None."""
+        import copy
+        s1 = copy.deepcopy(s0)
+        found = []
+        def top_call(n):   # the statement-level call / the direct right-hand side of a top-level assignment is handled by the ordinary paths
+            n = skip_wrappers(n)
+            while n.get('kind') == 'ImplicitCastExpr' and n.get('inner'):
+                n = skip_wrappers(n['inner'][0])
+            return n
+        skip = [id(top_call(s1))]
+        if s1.get('kind') == 'BinaryOperator' and s1.get('opcode') == '=':
+            skip.append(id(top_call(s1['inner'][1])))
+        def walk(n):
+            for i, c in enumerate(n.get('inner', []) or []):
+                if not isinstance(c, dict):
+                    continue
+                if c.get('kind') in ('CXXMemberCallExpr', 'CallExpr') and id(c) not in skip and self.is_nonsimple_call(c):
+                    found.append((n, i, c))
+                else:
+                    walk(c)
+        walk(s1)
+        if id(s1) not in skip[:1]:
+            pass
+        if not found:
+            return None
+        if len(found) > 1:
+            raise TranslationError('hoist_calls: more than one nested non-simple call in one statement')
+        parent, i, c = found[0]
+        r = self.fresh('h')
+        parent['inner'][i] = {'kind': 'GallinaVar', 'text': r, 'type': c.get('type', {}), 'valueCategory': c.get('valueCategory', 'prvalue')}
+        return c, s1, r
+
     def expr_stmt(self, s, rest):
         s0 = skip_wrappers(s)
         k = s0['kind']
+        if self.ctx.cfg.get('hoist_calls') and k in ('BinaryOperator', 'CXXMemberCallExpr', 'CallExpr'):   # C09
+            h_ = self.hoist_one(s0)
+            if h_ is not None:
+                call_, s1_, r_ = h_
+                self.env[r_] = ctype(call_)
+                return self.bind_call(call_, r_, lambda: self.expr_stmt(s1_, rest))
         if k in ('CXXMemberCallExpr', 'CXXOperatorCallExpr') and self.memobj(s0) is not None:   # C16
             return self.memobj_stmt(s0, rest)
         if k == 'BinaryOperator' and s0.get('opcode') == ',' and self.ctx.cfg.get('comma_sequence'):   # C16: `++i, ++n` in a for-increment
@@ -1499,6 +1602,17 @@ class Fn:
                     raise TranslationError('effect_calls: %s is not a configured field' % fld_)
                 self.note_write(fld_)
                 return f'let {fld_} := (' + ' '.join([fn_, fld_] + [self.e(a) for a in s0['inner'][1:]]) + f') in\n{rest()}'
+            if nm in getattr(self, 'fail_calls', ()):   # C04: a call that is otherwise skipped but may throw
+                return f'if {nm}_fails then RETURN[false] else (\n{rest()})'
+            lc_ = self.ctx.cfg.get('log_calls', {}).get(nm)   # C16: ghost log: {"Destroy": {"arr": field, "n": field, "args": [1, 2]}} -- the call is
+            if lc_ is not None:                                #      not executed, the listed argument VALUES are appended to the log array
+                la_ = s0['inner'][1:]; arr_, nn_ = lc_['arr'], lc_['n']
+                if arr_ not in self.env or nn_ not in self.env: raise TranslationError('log_calls: %s / %s must be configured fields' % (arr_, nn_))
+                self.note_write(arr_); self.note_write(nn_)
+                txt_ = ''
+                for i_ in lc_['args']:
+                    txt_ += f'let {arr_} := upd {arr_} {nn_} {self.e(la_[i_])} in\nlet {nn_} := ({nn_} + 1) in\n'
+                return txt_ + rest()
             if nm in self.ctx.cfg.get('skip_calls', []):
                 # C14: a skipped NAME does not hide a call to an overload that IS translated (pvDestroy() vs pvDestroy(Node*))
                 rid_ = (c.get('referencedMemberDecl') or (c.get('referencedDecl') or {}).get('id')) if c else None
@@ -1871,7 +1985,7 @@ class Fn:
                     self.extra_params.append((on, 'Z')); self.env[on] = ('u', 64)
         # pre-scan: does the function need the outcome monad?
         self.nonsimple = self.prescan(body) or self.name in self.ctx.cfg.get('force_outcome', [])   # C12: force_outcome
-        self.fails_mode = 'fails' in self.functors.values()   # C04
+        self.fails_mode = 'fails' in self.functors.values() or bool(self.fail_locals or self.fail_calls)   # C04
         if self.fails_mode:
             self.nonsimple = True
         wf_guess = None
@@ -1899,6 +2013,21 @@ class Fn:
                 if fld_ not in self.ctx.fields or self.ctx.fields[fld_] not in ('scalar', 'bool'):
                     raise TranslationError('constructor initialiser of %s which is not a configured scalar field' % fld_)
                 self.note_write(fld_)
+                mm_ = self.ctx.cfg.get('member_move_ctors', {}).get(fld_)
+                if mm_ is not None:
+                    # C14: "member_move_ctors": {field: Gallina function}: the initialiser `field(std::move(param.field))` of a member
+                    # OBJECT (modelled as one scalar) runs that member's move constructor, which is itself translated (e.g.
+                    # Gen_SetCrew2.MoveCtor : new -> source -> (new', source')); a function of one argument (source -> source') stands
+                    # for a member whose moved-from value is left abstract
+                    src_ = self.move_source(ini_['inner'][0])
+                    if src_ is None or src_ not in self.env:
+                        raise TranslationError('initialiser of %s is not `%s(std::move(param.%s))`' % (fld_, fld_, fld_))
+                    self.note_write(src_)
+                    if mm_.get('arity', 2) == 2:
+                        txt = f"let '({fld_}, {src_}) := ({mm_['fn']} {fld_} {src_}) in\n" + txt
+                    else:
+                        txt = f"let {fld_} := {src_} in\nlet {src_} := ({mm_['fn']} {src_}) in\n" + txt
+                    continue
                 txt = f'let {fld_} := {self.e(ini_["inner"][0])} in\n' + txt
         wf = self.out_fields()
         def fix_ret(m):
@@ -2128,6 +2257,11 @@ def translate_group(cfg, ast_text=None, repo='/repo'):
         ds = method_decls(spec, name)
         if not ds:
             raise TranslationError('function %s not found (with a body) in specialization %s' % (name, cfg['class']))
+        if isinstance(spec_fn, dict) and spec_fn.get('sig_regex'):   # C14: choose the overload by its type (e.g. the move constructor "&&\\) noexcept$")
+            ds = [d_ for d_ in ds if re.search(spec_fn['sig_regex'], d_.get('type', {}).get('qualType', ''))]
+            if len(ds) != 1:
+                raise TranslationError('function %s: %d overloads match %s' % (name, len(ds), spec_fn['sig_regex']))
+            idx = 0
         if idx >= len(ds):
             raise TranslationError('function %s overload %d not found' % (name, idx))
         f = Fn(ctx, ds[idx], outname)
